@@ -28,6 +28,7 @@
 #include "common/vh.hpp"
 
 #include <algorithm>
+#include <array>
 #include <cmath>
 #include <functional>
 #include <iostream>
@@ -277,18 +278,42 @@ struct Region {
 };
 struct DeckSpec {
     int unit; int oilKind /*0 PVDO 1 PVTO 2 PVCDO*/, gasKind /*0 PVDG 1 PVTG*/;
+    // `regions[k]` holds the tables that must be IN EFFECT in region k.  A region whose table is
+    // defaulted in the deck (a lone `/`, dflt[k][kw]) holds a copy of the table in effect in region
+    // k-1 — i.e. of the last table given explicitly at or before k; the deck text prints only `/`.
     std::vector<Region> regions;
+    std::vector<std::array<bool, 4>> dflt;       // per region: PVDO, PVDG, PVTO, PVTG defaulted
+    int longBranches = 0;                        // under-saturated branches with >= 7 rows (PVTO+PVTG, as given)
     std::string text;
+    std::string layout(int kw) const { std::string l; for (size_t k = 0; k < dflt.size(); ++k) { if (k) l += ','; l += dflt[k][kw] ? '/' : 'T'; } return l; }
+    std::string layouts() const
+    {
+        std::string l = "regions=" + std::to_string(regions.size());
+        if (oilKind == 0) l += " PVDO=" + layout(0);
+        if (oilKind == 1) l += " PVTO=" + layout(2);
+        if (gasKind == 0) l += " PVDG=" + layout(1);
+        if (gasKind == 1) l += " PVTG=" + layout(3);
+        return l;
+    }
 };
 
-static DeckSpec makeDeck(vh::Rng& r, int forceOil = -1, int forceGas = -1)
+// shape: 0 random; 1 three regions T,T,/ ; 2 four regions T,/,T,/ ; 3 one region, every branch long
+static DeckSpec makeDeck(vh::Rng& r, int forceOil = -1, int forceGas = -1, int shape = 0)
 {
     DeckSpec d;
     d.unit = r.range(0, 3);
     d.oilKind = forceOil >= 0 ? forceOil : r.range(0, 2);
     d.gasKind = forceGas >= 0 ? forceGas : r.range(0, 1);
     const UnitSys& u = kUnits[d.unit];
-    const int nreg = r.range(1, 3);
+    const int nreg = shape == 1 ? 3 : shape == 2 ? 4 : shape == 3 ? 1 : (r.coin(2, 5) ? r.range(3, 6) : r.range(1, 3));
+    // which region tables are defaulted (region 1 never: the deck would be refused)
+    for (int reg = 0; reg < nreg; ++reg) {
+        std::array<bool, 4> f{false, false, false, false};
+        if (shape == 1) f.fill(reg == 2);
+        else if (shape == 2) f.fill(reg == 1 || reg == 3);
+        else if (reg > 0) for (bool& b : f) b = r.coin(1, 3);
+        d.dflt.push_back(f);
+    }
     auto P = [&](double bar) { return parsed(bar * 1e5 / u.p); };           // nominal bar -> deck unit, as printed
     for (int reg = 0; reg < nreg; ++reg) {
         Region g;
@@ -317,7 +342,8 @@ static DeckSpec makeDeck(vh::Rng& r, int forceOil = -1, int forceGas = -1)
             for (int i = 0; i < n; ++i) {
                 Record rec; rec.key = parsed(rs / u.rs);
                 rec.rows.push_back({P(p), parsed(B / u.bo), parsed(mu)});
-                const int extra = (i == n - 1) ? r.range(1, 4) : (r.coin(2, 5) ? r.range(1, 3) : 0);
+                const bool longB = shape == 3 || r.coin(1, 5);     // 7 ... 12 rows on this branch
+                const int extra = longB ? r.range(6, 11) : (i == n - 1) ? r.range(1, 4) : (r.coin(2, 5) ? r.range(1, 3) : 0);
                 double pu = p, Bu = B, muu = mu;
                 for (int k = 0; k < extra; ++k) {
                     pu += 20 + 100 * r.unit(); Bu -= 0.003 + 0.02 * r.unit(); muu += 0.15 * r.unit();
@@ -338,10 +364,11 @@ static DeckSpec makeDeck(vh::Rng& r, int forceOil = -1, int forceGas = -1)
                 Record rec; rec.key = P(p);
                 const double Bg = (1.0 + 0.2 * r.unit()) / p;
                 rec.rows.push_back({parsed(rv / u.rv), parsed(Bg / u.bg), parsed(mu)});
-                const int extra = (i == n - 1) ? r.range(1, 3) : (r.coin(2, 5) ? r.range(1, 3) : 0);
+                const bool longB = shape == 3 || r.coin(1, 5);
+                const int extra = longB ? r.range(6, 11) : (i == n - 1) ? r.range(1, 3) : (r.coin(2, 5) ? r.range(1, 3) : 0);
                 double rvu = rv;
                 for (int k = 0; k < extra; ++k) {
-                    rvu = (k == extra - 1 && r.coin()) ? 0.0 : rvu * (0.2 + 0.6 * r.unit());
+                    rvu = (k == extra - 1 && r.coin()) ? 0.0 : rvu * (longB ? 0.55 + 0.4 * r.unit() : 0.2 + 0.6 * r.unit());
                     rec.rows.push_back({parsed(rvu / u.rv), parsed(Bg * (1 + 0.05 * (r.unit() - 0.3) * (k + 1)) / u.bg),
                                         parsed(mu * (1 + 0.1 * (r.unit() - 0.5)))});
                     if (rvu == 0.0) break;
@@ -357,7 +384,18 @@ static DeckSpec makeDeck(vh::Rng& r, int forceOil = -1, int forceGas = -1)
             w[2] = parsed((1e-5 + 1e-4 * r.unit()) * (1e-5 / u.comp)); w[3] = parsed(0.2 + 2 * r.unit());
             w[4] = parsed((r.coin(1, 4) ? 0.0 : 1e-4 * r.unit()) * (1e-5 / u.comp));
         }
+        if (reg > 0) {   // defaulted: the table in effect is the one in effect in the previous region
+            const Region& prev = d.regions[reg - 1];
+            if (d.dflt[reg][0]) g.pvdo = prev.pvdo;
+            if (d.dflt[reg][1]) g.pvdg = prev.pvdg;
+            if (d.dflt[reg][2]) g.pvto = prev.pvto;
+            if (d.dflt[reg][3]) g.pvtg = prev.pvtg;
+        }
         d.regions.push_back(g);
+    }
+    for (int reg = 0; reg < nreg; ++reg) {
+        if (d.oilKind == 1 && !d.dflt[reg][2]) for (auto& rec : d.regions[reg].pvto) d.longBranches += rec.rows.size() >= 7;
+        if (d.gasKind == 1 && !d.dflt[reg][3]) for (auto& rec : d.regions[reg].pvtg) d.longBranches += rec.rows.size() >= 7;
     }
     std::string s = "RUNSPEC\nDIMENS\n 2 2 1 /\nTABDIMS\n 1 " + std::to_string(nreg) + " 40 40 1 40 /\nOIL\nGAS\nWATER\n";
     if (d.oilKind == 1) s += "DISGAS\n";
@@ -366,13 +404,19 @@ static DeckSpec makeDeck(vh::Rng& r, int forceOil = -1, int forceGas = -1)
     for (int reg = 0; reg < nreg; ++reg) s += " " + num(850 / u.dens) + " " + num(1020 / u.dens) + " " + num(0.9 / u.dens) + " /\n";
     s += "PVTW\n";
     for (auto& g : d.regions) { for (double v : g.pvtw) s += " " + num(v); s += " /\n"; }
-    auto simple = [&](const char* kw, std::vector<Row> Region::*tab) {
+    auto simple = [&](const char* kw, std::vector<Row> Region::*tab, int which) {
         s += std::string(kw) + "\n";
-        for (auto& g : d.regions) { for (auto& row : g.*tab) s += " " + num(row.y) + " " + num(row.B) + " " + num(row.mu) + "\n"; s += "/\n"; }
+        for (int reg = 0; reg < nreg; ++reg) {
+            const Region& g = d.regions[reg];
+            if (!d.dflt[reg][which]) for (auto& row : g.*tab) s += " " + num(row.y) + " " + num(row.B) + " " + num(row.mu) + "\n";
+            s += "/\n";
+        }
     };
-    auto nested = [&](const char* kw, std::vector<Record> Region::*tab) {
+    auto nested = [&](const char* kw, std::vector<Record> Region::*tab, int which) {
         s += std::string(kw) + "\n";
-        for (auto& g : d.regions) {
+        for (int reg = 0; reg < nreg; ++reg) {
+            const Region& g = d.regions[reg];
+            if (d.dflt[reg][which]) { s += "/\n"; continue; }     // defaulted region table: a lone slash
             for (auto& rec : g.*tab) {
                 s += " " + num(rec.key);
                 for (auto& row : rec.rows) s += " " + num(row.y) + " " + num(row.B) + " " + num(row.mu) + "\n   ";
@@ -381,10 +425,10 @@ static DeckSpec makeDeck(vh::Rng& r, int forceOil = -1, int forceGas = -1)
             s += "/\n";
         }
     };
-    if (d.oilKind == 0) simple("PVDO", &Region::pvdo);
-    else if (d.oilKind == 1) nested("PVTO", &Region::pvto);
+    if (d.oilKind == 0) simple("PVDO", &Region::pvdo, 0);
+    else if (d.oilKind == 1) nested("PVTO", &Region::pvto, 2);
     else { s += "PVCDO\n"; for (auto& g : d.regions) { for (double v : g.pvcdo) s += " " + num(v); s += " /\n"; } }
-    if (d.gasKind == 0) simple("PVDG", &Region::pvdg); else nested("PVTG", &Region::pvtg);
+    if (d.gasKind == 0) simple("PVDG", &Region::pvdg, 1); else nested("PVTG", &Region::pvtg, 3);
     d.text = s;
     return d;
 }
@@ -451,6 +495,8 @@ static void corrDeck(vh::Rng& r, vh::Sink& sink, const DeckSpec& d)
     sink.count("deck.oil=" + std::to_string(d.oilKind));
     sink.count("deck.gas=" + std::to_string(d.gasKind));
     sink.count("deck.regions=" + std::to_string(d.regions.size()));
+    sink.count("deck.long_branches", d.longBranches);
+    for (size_t reg = 1; reg < d.regions.size(); ++reg) for (int kw = 0; kw < 4; ++kw) sink.count("deck.defaulted_region_tables", d.dflt[reg][kw]);
     for (unsigned reg = 0; reg < d.regions.size(); ++reg) {
         // water and constant compressibility oil
         auto cc = [&](const double* rec5, std::function<std::pair<double, double>(double)> real) {
@@ -544,11 +590,12 @@ static bool close(double a, double b, double rel, double abs0 = 0.0) { return st
 static bool between(double v, double a, double b, double slack) { const double lo = std::min(a, b), hi = std::max(a, b); const double s = slack * std::max(std::fabs(lo), std::fabs(hi)); return lo - s <= v && v <= hi + s; }
 
 struct Prop {
-    vh::PropLog& log; const DeckSpec& d; unsigned reg = 0;
+    vh::PropLog& log; const DeckSpec& d; int deckNo = 0; unsigned reg = 0;
     void check(bool ok, const std::string& key, const std::string& detail)
     {
         log.ok();
-        if (!ok) log.fail(key, std::string("unit=") + kUnits[d.unit].name + " region=" + std::to_string(reg) + " " + detail);
+        if (!ok) log.fail(key, std::string("unit=") + kUnits[d.unit].name + " deck=" + std::to_string(deckNo) + " " + d.layouts() +
+                          " region=" + std::to_string(reg + 1) + "(of " + std::to_string(d.regions.size()) + ") " + detail);
     }
 };
 
@@ -571,15 +618,44 @@ static void adCheck(Prop& P, const std::string& key, F&& fEval, G&& fDouble, dou
     P.check(ok, key + ".derivative", "AD " + num(ad) + " vs central " + num(c) + " fwd " + num(fw) + " bwd " + num(bw) + " at " + num(x));
 }
 
-static void propDeck(vh::Rng& r, vh::PropLog& log, const DeckSpec& d)
+// linear interpolation written down here, independently of the table classes
+static double lerp(double a, double b, double t) { return a * (1.0 - t) + b * t; }
+
+static void propDeck(vh::Rng& r, vh::PropLog& log, const DeckSpec& d, int deckNo)
 {
     Loaded L(d.text);
     const UnitSys& u = kUnits[d.unit];
-    Prop P{log, d};
+    Prop P{log, d, deckNo};
     const double tol = 1e-12;
     for (unsigned reg = 0; reg < d.regions.size(); ++reg) {
         P.reg = reg;
         const Region& g = d.regions[reg];
+        // which deck table is in effect in this region (deck -> TableManager), before any PVT class is involved
+        {
+            const auto& tm = L.es.getTableManager();
+            auto sameKeys = [&](const Opm::PvtxTable& t, const std::vector<Record>& recs, double keyUnit, double yUnit, const std::string& key) {
+                bool ok = t.size() == recs.size();
+                std::string got, want;
+                for (size_t i = 0; i < t.size(); ++i) got += (i ? "," : "") + num(t.getArgValue(i));
+                for (size_t i = 0; i < recs.size(); ++i) want += (i ? "," : "") + num(recs[i].key * keyUnit);
+                for (size_t i = 0; ok && i < recs.size(); ++i) {
+                    const auto& ut = t.getUnderSaturatedTable(i);
+                    ok = close(t.getArgValue(i), recs[i].key * keyUnit, 1e-12, 1e-300) && ut.numRows() == recs[i].rows.size();
+                    for (size_t j = 0; ok && j < recs[i].rows.size(); ++j) ok = close(ut.get(0, j), recs[i].rows[j].y * yUnit, 1e-12, 1e-300);
+                }
+                P.check(ok, key, "keys of the table in effect " + got + " expected (last table given at or before this region) " + want);
+            };
+            auto sameCol = [&](const Opm::SimpleTable& t, const std::vector<Row>& rows, const std::string& key) {
+                bool ok = t.numRows() == rows.size();
+                for (size_t i = 0; ok && i < rows.size(); ++i) ok = close(t.get(0, i), rows[i].y * u.p, 1e-12);
+                P.check(ok, key, "pressure column of the table in effect has " + std::to_string(t.numRows()) + " rows starting " + num(t.get(0, 0)) +
+                        ", expected " + std::to_string(rows.size()) + " rows starting " + num(rows[0].y * u.p));
+            };
+            if (d.oilKind == 1) sameKeys(tm.getPvtoTables()[reg], g.pvto, u.rs, u.p, "region.pvto.source");
+            if (d.gasKind == 1) sameKeys(tm.getPvtgTables()[reg], g.pvtg, u.p, u.rv, "region.pvtg.source");
+            if (d.oilKind == 0) sameCol(tm.getPvdoTables().getTable<Opm::PvdoTable>(reg), g.pvdo, "region.pvdo.source");
+            if (d.gasKind == 0) sameCol(tm.getPvdgTables().getTable<Opm::PvdgTable>(reg), g.pvdg, "region.pvdg.source");
+        }
         // PVTW / PVCDO: reference point honoured
         {
             const double p = g.pvtw[0] * u.p;
@@ -646,6 +722,19 @@ static void propDeck(vh::Rng& r, vh::PropLog& log, const DeckSpec& d)
                         const double q = p + (nx.y * u.p - p) * r.unit();
                         P.check(between(1.0 / invB(q, rs), row.B * u.bo, nx.B * u.bo, 1e-12), "between.pvto.B", at);
                         P.check(between(mu(q, rs), row.mu * u.mu, nx.mu * u.mu, 1e-12), "between.pvto.mu", at);
+                        // along a tabulated branch 1/B and 1/(B mu) are the straight lines through rows j, j+1
+                        // (independent oracle); mid-segment, quarter points and a random point
+                        const double b0 = 1.0 / (row.B * u.bo), b1 = 1.0 / (nx.B * u.bo);
+                        const double m0 = b0 / (row.mu * u.mu), m1 = b1 / (nx.mu * u.mu);
+                        for (const double t : {0.5, 0.25, 0.75, r.unit()}) {
+                            const double qq = p + (nx.y * u.p - p) * t;
+                            const std::string where = at + "/" + std::to_string(recs[i].rows.size()) + "rows t=" + num(t) + " Rs=" + num(rs) + " p=" + num(qq);
+                            const double ib = invB(qq, rs), ob = lerp(b0, b1, t);
+                            P.check(close(ib, ob, 1e-10), "interp.pvto.invB", where + " 1/Bo=" + num(ib) + " line through the bracketing rows " + num(ob) +
+                                    " rows [" + num(b0) + ", " + num(b1) + "]");
+                            const double vm = mu(qq, rs), om = ob / lerp(m0, m1, t);
+                            P.check(close(vm, om, 1e-10), "interp.pvto.mu", where + " mu=" + num(vm) + " expected " + num(om));
+                        }
                     }
                 }
                 // saturated functions at the saturated nodes
@@ -701,6 +790,17 @@ static void propDeck(vh::Rng& r, vh::PropLog& log, const DeckSpec& d)
                         const double q = rv + (nx.y * u.rv - rv) * r.unit();
                         P.check(between(1.0 / invB(p, q), row.B * u.bg, nx.B * u.bg, 1e-12), "between.pvtg.B", at);
                         P.check(between(mu(p, q), row.mu * u.mu, nx.mu * u.mu, 1e-12), "between.pvtg.mu", at);
+                        const double b0 = 1.0 / (row.B * u.bg), b1 = 1.0 / (nx.B * u.bg);
+                        const double m0 = b0 / (row.mu * u.mu), m1 = b1 / (nx.mu * u.mu);
+                        for (const double t : {0.5, 0.25, 0.75, r.unit()}) {
+                            const double qq = rv + (nx.y * u.rv - rv) * t;
+                            const std::string where = at + "/" + std::to_string(recs[i].rows.size()) + "rows t=" + num(t) + " pg=" + num(p) + " Rv=" + num(qq);
+                            const double ib = invB(p, qq), ob = lerp(b0, b1, t);
+                            P.check(close(ib, ob, 1e-10), "interp.pvtg.invB", where + " 1/Bg=" + num(ib) + " line through the bracketing rows " + num(ob) +
+                                    " rows [" + num(b0) + ", " + num(b1) + "]");
+                            const double vm = mu(p, qq), om = ob / lerp(m0, m1, t);
+                            P.check(close(vm, om, 1e-10), "interp.pvtg.mu", where + " mu=" + num(vm) + " expected " + num(om));
+                        }
                     }
                 }
                 const Row& s = recs[i].rows[0];
@@ -760,6 +860,110 @@ static void propTab1(vh::Rng& r, vh::PropLog& log, int cases)
     }
 }
 
+// deck number k of a run: the first ones have fixed kinds / region layouts so that every run covers them
+static DeckSpec deckNo(vh::Rng& r, int k)
+{
+    switch (k) {
+    case 0: return makeDeck(r, 0, 0);
+    case 1: return makeDeck(r, 1, 1);
+    case 2: return makeDeck(r, 2, -1);
+    case 3: return makeDeck(r, 1, 1, 1);     // PVTO + PVTG, regions T,T,/
+    case 4: return makeDeck(r, 0, 0, 1);     // PVDO + PVDG, regions T,T,/
+    case 5: return makeDeck(r, 1, 1, 2);     // T,/,T,/
+    case 6: return makeDeck(r, 1, 1, 3);     // every under-saturated branch has 7 ... 12 rows
+    default: return makeDeck(r);
+    }
+}
+
+// ------------------------------------------------------------------------------------------
+// which deck table a region gets: PvtxTable::init (PVTO/PVTG) and initSimpleTableContainer (PVDO/PVDG)
+// on keywords with up to 6 regions and any pattern of defaulted region tables, including region 1
+
+static void corrRegions(vh::Rng& r, vh::Sink& sink, int cases)
+{
+    for (int c = 0; c < cases; ++c) {
+        const int ntab = r.coin(1, 4) ? r.range(1, 2) : r.range(3, 6);
+        const int kind = r.range(0, 3);   // 0 PVTO 1 PVTG 2 PVDO 3 PVDG
+        std::vector<bool> empty(ntab);
+        for (int t = 0; t < ntab; ++t) empty[t] = t == 0 ? r.coin(1, 8) : r.coin(2, 5);
+        std::string s = "RUNSPEC\nTABDIMS\n 1 " + std::to_string(ntab) + " 40 40 1 40 /\nOIL\nGAS\nWATER\nDISGAS\nVAPOIL\nPROPS\n";
+        static const char* kws[4] = {"PVTO", "PVTG", "PVDO", "PVDG"};
+        s += std::string(kws[kind]) + "\n";
+        for (int t = 0; t < ntab; ++t) {
+            if (!empty[t]) {
+                const int nrec = r.range(1, 4);
+                double key = 1 + 10 * r.unit(), y = 10 + 10 * r.unit();
+                for (int i = 0; i < nrec; ++i) {
+                    if (kind == 0) {        // Rs  p Bo mu [p Bo mu]
+                        s += " " + num(key) + " " + num(y) + " " + num(1.5 - 0.01 * i) + " 1.0";
+                        if (r.coin()) s += " " + num(y + 50) + " " + num(1.4 - 0.01 * i) + " 1.1";
+                        s += " /\n";
+                    } else if (kind == 1) { // pg  Rv Bg mu [Rv Bg mu]
+                        s += " " + num(key) + " " + num(1e-4 * (i + 2)) + " 0.01 0.02";
+                        if (r.coin()) s += " " + num(1e-5 * (i + 1)) + " 0.011 0.021";
+                        s += " /\n";
+                    } else {                // p B mu rows of one simple table
+                        s += " " + num(key) + " " + num(kind == 2 ? 1.5 - 0.01 * i : 0.1 / (i + 1)) + " " + num(1.0 + 0.1 * i) + "\n";
+                    }
+                    key += 1 + 20 * r.unit(); y += 5 + 20 * r.unit();
+                }
+            }
+            if (kind >= 2 || t + 1 < ntab || true) s += "/\n";
+        }
+        sink.count(std::string("regions.kw=") + kws[kind]);
+        sink.count("regions.tables=" + std::to_string(ntab));
+        sink.count(empty[0] ? "regions.first_defaulted" : "regions.first_given");
+        try {
+            const Opm::Deck deck = Opm::Parser().parseString(s);
+            const auto& kw = deck[kws[kind]].back();
+            if (kind < 2) {
+                std::string recs;
+                for (size_t i = 0; i < kw.size(); ++i) {
+                    const auto& item = kw.getRecord(i).getItem(0);
+                    recs += (i ? "," : "") + (item.hasValue(0) ? hx(item.getSIDouble(0)) : std::string("-"));
+                }
+                const size_t n = Opm::PvtxTable::numTables(kw);
+                std::string ans;
+                for (size_t idx = 0; idx <= n; ++idx) {
+                    std::string a;
+                    try {
+                        std::vector<double> keys;
+                        if (kind == 0) { const Opm::PvtoTable t(kw, idx); for (size_t i = 0; i < t.size(); ++i) keys.push_back(t.getArgValue(i)); }
+                        else { const Opm::PvtgTable t(kw, idx); for (size_t i = 0; i < t.size(); ++i) keys.push_back(t.getArgValue(i)); }
+                        a = hxl(keys);
+                    } catch (const std::invalid_argument&) { a = "err:nosuch"; }
+                    catch (const std::exception&) { a = "err:first"; }
+                    ans += (idx ? " " : "") + a;
+                    sink.count(a.rfind("err", 0) == 0 ? "regions." + a : "regions.ok");
+                }
+                sink.emit("pvt.regions " + (recs.empty() ? std::string("@") : recs), ans);   // @ = a keyword without records
+            } else {
+                std::string tabs;
+                for (size_t i = 0; i < kw.size(); ++i) {
+                    const auto& item = kw.getRecord(i).getItem("DATA");
+                    std::vector<double> col;
+                    if (item.data_size() > 0) { const auto& v = item.getSIDoubleData(); for (size_t j = 0; j < v.size(); j += 3) col.push_back(v[j]); }
+                    tabs += (i ? ";" : "") + hxl(col);
+                }
+                std::string ans;
+                try {
+                    const Opm::TableManager tm(deck);
+                    const auto& cont = kind == 2 ? tm.getPvdoTables() : tm.getPvdgTables();
+                    for (size_t t = 0; t < cont.size(); ++t) {
+                        const auto& tab = cont.getTable(t);
+                        ans += (t ? "|" : "") + hxl(tab.getColumn(0).vectorCopy());
+                    }
+                    sink.count("regions.simple.ok");
+                } catch (const std::exception&) { ans = "err"; sink.count("regions.simple.err"); }
+                sink.emit("pvt.simple " + tabs, ans);
+            }
+        } catch (const std::exception& e) {
+            std::cerr << "region deck rejected by the parser: " << typeid(e).name() << "\n" << s << "\n";
+            throw;
+        }
+    }
+}
+
 int main(int argc, char** argv)
 {
     if (argc < 5) { std::cerr << "usage: pvt corr|prop <seed> <tier> <outdir>\n"; return 2; }
@@ -772,9 +976,10 @@ int main(int argc, char** argv)
         vh::Sink sink(out);
         corrTab1(r, sink, thorough ? 6000 : 1200);
         corrTab2(r, sink, thorough ? 4000 : 800);
+        corrRegions(r, sink, thorough ? 3000 : 500);
         const int decks = thorough ? 1200 : 160;
         for (int k = 0; k < decks; ++k) {
-            DeckSpec d = makeDeck(r, k < 3 ? k : -1, k < 2 ? k : -1);
+            DeckSpec d = deckNo(r, k);
             try { corrDeck(r, sink, d); }
             catch (const std::exception& e) {
                 // a generated deck the real code refuses is a generator defect, not a result: make it loud
@@ -789,13 +994,27 @@ int main(int argc, char** argv)
         vh::PropLog log(out + "/prop.txt");
         propTab1(r, log, thorough ? 3000 : 500);
         const int decks = thorough ? 1500 : 200;
+        long multi = 0, dfl = 0, dflNotFirst = 0, longB = 0;
         for (int k = 0; k < decks; ++k) {
-            DeckSpec d = makeDeck(r, k < 3 ? k : -1, k < 2 ? k : -1);
-            try { propDeck(r, log, d); }
+            DeckSpec d = deckNo(r, k);
+            multi += d.regions.size() >= 3;
+            for (size_t reg = 1; reg < d.regions.size(); ++reg)
+                for (int kw : {d.oilKind == 0 ? 0 : d.oilKind == 1 ? 2 : -1, d.gasKind == 0 ? 1 : 3}) {
+                    if (kw < 0 || !d.dflt[reg][kw]) continue;
+                    ++dfl;
+                    // the table in effect is not the keyword's first table (what a forward search would pick)
+                    size_t src = reg; while (d.dflt[src][kw]) --src;
+                    dflNotFirst += src != 0;
+                }
+            longB += d.longBranches;
+            try { propDeck(r, log, d, k); }
             catch (const std::exception& e) { std::cerr << "deck rejected: " << typeid(e).name() << "\n" << d.text << "\n"; return 3; }
         }
         std::ofstream st(out + "/prop_stats.json");
-        st << "{\"checked\": " << log.checked << ", \"failed\": " << log.failed << "}\n";
+        st << "{\"checked\": " << log.checked << ", \"failed\": " << log.failed << ", \"decks\": " << decks
+           << ", \"decks_with_3_or_more_regions\": " << multi << ", \"defaulted_region_tables\": " << dfl
+           << ", \"defaulted_with_source_other_than_first_table\": " << dflNotFirst
+           << ", \"branches_with_7_or_more_rows\": " << longB << "}\n";
         return 0;
     }
     return 2;
